@@ -6,6 +6,8 @@ package ast
 import (
 	"fmt"
 	"strings"
+
+	"github.com/zclconf/go-cty/cty"
 )
 
 // Node is an expression node.
@@ -120,6 +122,10 @@ type Cond struct{ P, T, F Node }
 // Paren is an explicit `( x )`.
 type Paren struct{ X Node }
 
+// Exact marks an expression that is subject to static analysis (a dynamic block's
+// labels list or iterator name): it is written without redundant parentheses around it.
+type Exact struct{ X Node }
+
 // TemplateForm says how a template expression is written.
 type TemplateForm int
 
@@ -183,6 +189,7 @@ func (Unary) node()       {}
 func (Binary) node()      {}
 func (Cond) node()        {}
 func (Paren) node()       {}
+func (Exact) node()       {}
 func (Template) node()    {}
 
 func (TLit) tpart()    {}
@@ -343,6 +350,8 @@ func dump(sb *strings.Builder, n Node) {
 		sb.WriteString("(paren ")
 		dump(sb, x.X)
 		sb.WriteString(")")
+	case Exact:
+		dump(sb, x.X)
 	case Template:
 		fmt.Fprintf(sb, "(tmpl%d", int(x.Form))
 		dumpParts(sb, x.Parts)
@@ -462,6 +471,8 @@ func Walk(n Node, f func(Node)) {
 		Walk(x.F, f)
 	case Paren:
 		Walk(x.X, f)
+	case Exact:
+		Walk(x.X, f)
 	case Template:
 		walkParts(x.Parts, f)
 	}
@@ -510,10 +521,49 @@ type Block struct {
 	Labels  []Label
 	Body    *Body
 	OneLine bool // written as a one-line block (body has at most one attribute and no blocks)
+	// Bind holds extra variables visible to the expressions inside the block's body
+	// (set by the reference dynamic-block expander: the iterator objects).
+	Bind map[string]cty.Value
+}
+
+// Dyn is a `dynamic "Type" { for_each, iterator, labels, content {} }` block.
+type Dyn struct {
+	Type     string
+	ForEach  Node
+	Iterator string // "" = the default iterator name (the block type)
+	Labels   []Node
+	Content  *Body
 }
 
 func (Attr) item()  {}
 func (Block) item() {}
+func (Dyn) item()   {}
+
+// DynSyntax rewrites every Dyn item into the `dynamic` block that denotes it.
+func DynSyntax(b *Body) *Body {
+	out := &Body{}
+	for _, it := range b.Items {
+		switch x := it.(type) {
+		case Block:
+			x.Body = DynSyntax(x.Body)
+			out.Items = append(out.Items, x)
+		case Dyn:
+			inner := &Body{}
+			inner.Items = append(inner.Items, Attr{Name: "for_each", Expr: x.ForEach})
+			if x.Iterator != "" {
+				inner.Items = append(inner.Items, Attr{Name: "iterator", Expr: Exact{X: Var{Name: x.Iterator}}})
+			}
+			if x.Labels != nil {
+				inner.Items = append(inner.Items, Attr{Name: "labels", Expr: Exact{X: Tuple{Elems: x.Labels}}})
+			}
+			inner.Items = append(inner.Items, Block{Type: "content", Body: DynSyntax(x.Content)})
+			out.Items = append(out.Items, Block{Type: "dynamic", Labels: []Label{{Text: x.Type}}, Body: inner})
+		default:
+			out.Items = append(out.Items, it)
+		}
+	}
+	return out
+}
 
 // Attrs returns the attributes of a body in order.
 func (b *Body) Attrs() []Attr {
@@ -554,6 +604,18 @@ func dumpBody(sb *strings.Builder, b *Body) {
 		case Attr:
 			sb.WriteString(x.Name + "=")
 			dump(sb, x.Expr)
+		case Dyn:
+			sb.WriteString("dynamic " + x.Type + " for_each=")
+			dump(sb, x.ForEach)
+			if x.Iterator != "" {
+				sb.WriteString(" iterator=" + x.Iterator)
+			}
+			for _, l := range x.Labels {
+				sb.WriteString(" label=")
+				dump(sb, l)
+			}
+			sb.WriteString(" ")
+			dumpBody(sb, x.Content)
 		case Block:
 			sb.WriteString(x.Type)
 			for _, l := range x.Labels {
@@ -649,6 +711,8 @@ func freeVars(n Node, bound map[string]int, out map[string]bool) {
 		freeVars(x.T, bound, out)
 		freeVars(x.F, bound, out)
 	case Paren:
+		freeVars(x.X, bound, out)
+	case Exact:
 		freeVars(x.X, bound, out)
 	case Template:
 		freeVarsParts(x.Parts, bound, out)
